@@ -301,7 +301,8 @@ class TraceRun:
         rec = self.w.rec
         flat = [x for m in model for x in m]
         depth = len(model)
-        if depth == 0:
+        if depth == 0 or not flat:
+            # top level, or only regions with a PUBLIC true condition around (they install no guard)
             g0, ie0, one0 = self.w.initial
             bad = []
             if rt.guard is not g0:
